@@ -1,8 +1,8 @@
 ---------------------------- MODULE MCFSNodeMeta ----------------------------
 (* Phase M: the mutator state machine over a class set; invariants = the property. *)
 EXTENDS FSNodeMeta
-MCPerms  == {0, 1, 420, 511, 512, 1024, 2048, 4095}
-MCJunk   == {{}, {31}, {27, 26}, {9, 10, 11}}
-MCExt    == {[lo |-> 0, hi |-> FALSE], [lo |-> 1, hi |-> TRUE], [lo |-> 1048575, hi |-> FALSE]}
-MCTimes  == {ZeroTime, [neg |-> FALSE, mag |-> <<0, 0, 0, 0>>, ns |-> 0], [neg |-> TRUE, mag |-> <<1, 0, 0, 0>>, ns |-> 999999999]}
+MCPerms  == {0, 420, 512, 2048, 4095}
+MCJunk   == {{}, {31, 27, 26}, {9, 10, 11}}
+MCExt    == {[lo |-> 0, hi |-> FALSE], [lo |-> 1048575, hi |-> TRUE]}
+MCTimes  == {ZeroTime, [neg |-> TRUE, mag |-> <<1, 0, 0, 0>>, ns |-> 999999999]}
 =============================================================================
